@@ -57,7 +57,7 @@ def sh(cmd, cwd=None, inp=None, timeout=None, env=None):
 def flock(name):
     os.makedirs(BUILD, exist_ok=True)
     path = os.path.join(BUILD, name + ".lock")
-    if name in ("lake", "extract"):
+    if name in ("lake", "extract", "leanphase"):
         # the Lean project and its Generated/ files are shared by runs against /repo and against scratch copies
         # (VERIF_REPO): one lock for all of them.  Never wrap ./check in `flock` on this file (self-deadlock).
         os.makedirs(os.path.join(VERIF, ".build"), exist_ok=True)
